@@ -35,8 +35,19 @@ class NodeModel:
 
     def __init__(self, tree, clsname="Node"):
         self.tree = tree
-        self.cls = [n for n in tree.body if isinstance(n, ast.ClassDef) and n.name == clsname]
-        self.methods = {m.name: m for c in self.cls for m in c.body if isinstance(m, ast.FunctionDef)}
+        classes = {n.name: n for n in tree.body if isinstance(n, ast.ClassDef)}
+        # the class and the classes of this module it inherits from (a method is looked up in that order)
+        self.cls, work = [], [clsname]
+        while work:
+            c = classes.get(work.pop(0))
+            if c is not None and c not in self.cls:
+                self.cls.append(c)
+                work.extend((dotted_parts(b) or ["?"])[-1] for b in c.bases)
+        self.methods = {}
+        for c in self.cls:
+            for m in c.body:
+                if isinstance(m, ast.FunctionDef):
+                    self.methods.setdefault(m.name, m)
         self.funcs = {f.name: f for f in tree.body if isinstance(f, ast.FunctionDef)}
         self.peer_roots = []
 
